@@ -207,9 +207,9 @@ impl G {
             83..=85 => "flush".into(),
             86..=89 => "restart".into(),
             90..=92 => {
-                // (C07: a fault while a fail-safe is armed can hit the purge of a rollback - open finding
-                // C07-failed-purge-on-rollback, left to the corpus)
-                if c07 && (v.armed.is_some() || self.r.chance(1, 2)) {
+                // (C07: a fault while a fail-safe is armed can hit the purge of a rollback - the repaired
+                // finding C07-failed-purge-on-rollback; generated since the repair)
+                if c07 && self.r.chance(1, 2) {
                     "poll".into()
                 } else {
                     format!("kvfail {}", self.r.range(1, 2))
